@@ -438,3 +438,41 @@ func Shrink(c *Case, class string, fails func(*Case) string) *Case {
 	}
 	return cur
 }
+
+// WideCases lists deterministic requests over selection sets with 5–12 distinct response keys (at
+// the root and nested), each under the un-collected presentations Syntax = 1 … perShape: every
+// position's key repeated after 0 … n other selections, directly and through inline / named
+// fragments, sub-selections split across the occurrences. Every third invocation answers through a
+// promise. (GroupedFieldSet implementations that treat small and large sets differently are only
+// exercised by such sets.)
+func WideCases(mutation bool, perShape int) []*Case {
+	shapes := []string{
+		"{a:i b:i c:i d:i e:i}",
+		"{a:i b:i c:i d:i e:i f:i g:i}",
+		"{a:{x:i} b:i c:i d:{y:i z:i} e:{u:i v:i} f:i}",
+		"{o:{a:i b:i c:i d:i e:i f:i} p:i}",
+		"{a:i b:[{k:i l:i m:i n:i q:i r:i}] c:i d:i e:i f:i g:i h:i}",
+		"{a:i b:i c:i d:i e:{p:i q:i r:i s:i t:{w:i} u:i}~i f:i g:i h:i i2:i j:i k:i l:i}",
+	}
+	var out []*Case
+	for _, src := range shapes {
+		shape := MustShape(src)
+		var world *WVal
+		EnumWorlds(shape, []string{"val"}, []string{"val"}, 2, false, func(w *WVal) bool {
+			world = w
+			return false
+		})
+		base := &Case{Mutation: mutation, Shape: shape, World: world}
+		for i, f := range base.Invocations() {
+			if i%3 == 1 {
+				f.Mode = "promise"
+			}
+		}
+		for syn := 1; syn <= perShape; syn++ {
+			c := base.Clone()
+			c.Syntax = uint64(syn)
+			out = append(out, c)
+		}
+	}
+	return out
+}
